@@ -1,0 +1,23 @@
+//go:build verif
+
+package data
+
+// Contracts for govc (/verif). Comment-only file: no executable code, not part of the default build.
+
+/*@
+func (ia *InitialAccount) AddressBytes() (r []byte)
+  ensures getter: r == ia.addressBytes
+  assigns nothing
+
+func (ia *InitialAccount) SetAddressBytes(address []byte)
+  ensures setter: ia.addressBytes == address
+  assigns ia.addressBytes
+
+func (dd *DelegationData) AddressBytes() (r []byte)
+  ensures getter: r == dd.addressBytes
+  assigns nothing
+
+func (dd *DelegationData) SetAddressBytes(address []byte)
+  ensures setter: dd.addressBytes == address
+  assigns dd.addressBytes
+@*/
